@@ -401,6 +401,16 @@ func (h *bufHooks) OnCall(c *engine.Ctx, instr ssa.Instruction, callee *ssa.Func
 		}
 		return true, engine.Top{}
 	}
+	// an empty buffer neither ends nor begins with a marker
+	if (name == "bytes.HasSuffix" || name == "bytes.HasPrefix") && len(args) == 2 {
+		if so, ok := args[0].(engine.SliceOf); ok {
+			if l0, _ := constStr(c.Heap.Get(so.Obj, joinPath(bufPrefixOfSlice(so.Path), "#len0"))); l0 == "T" {
+				if ci, isCall := instr.(ssa.CallInstruction); isCall && nonEmptyConstBytes(ci.Common().Args[1]) {
+					return true, boolv(false)
+				}
+			}
+		}
+	}
 	// external callee that receives the tracked slice
 	if !strings.HasPrefix(pkgPathOf(callee), "github.com/cockroachdb/redact") {
 		for _, a := range args {
@@ -664,4 +674,22 @@ func namedOf(t types.Type) string {
 		return n.Obj().Pkg().Path() + "." + n.Obj().Name()
 	}
 	return ""
+}
+
+// nonEmptyConstBytes: v is a marker constant in []byte form — a load of one
+// of the package-level byte slices of the markers package (C07 decides that
+// they hold the non-empty marker strings, C07.g that nobody can write them)
+// or the conversion of a non-empty constant string.
+func nonEmptyConstBytes(v ssa.Value) bool {
+	switch x := v.(type) {
+	case *ssa.UnOp:
+		if g, ok := x.X.(*ssa.Global); ok && x.Op == token.MUL && g.Pkg != nil && g.Pkg.Pkg.Path() == pkgMarkers {
+			return true
+		}
+	case *ssa.Convert:
+		if k, ok := x.X.(*ssa.Const); ok && k.Value != nil && k.Value.Kind() == constant.String {
+			return constant.StringVal(k.Value) != ""
+		}
+	}
+	return false
 }
